@@ -179,3 +179,63 @@ def single(prog, base):
     if len(ids) != 1:
         raise AnalysisBroken("anchor %s is ambiguous: %d definitions" % (base, len(ids)))
     return fs[0]
+
+
+# ---------- lockset (analysis A) ----------
+
+GUARD_CLASSES = {"std::lock_guard", "std::unique_lock", "std::scoped_lock"}
+
+
+def guard_of_decl(ev):
+    """(var, mutex_field (template-stripped), mutex_base_text) when ev declares an RAII lock guard, else None."""
+    if ev["k"] != "decl" or not ev.get("ctor"):
+        return None
+    if strip_tmpl(ev["ctor"]) not in GUARD_CLASSES:
+        return None
+    ca = ev.get("cargs") or []
+    if not ca:
+        return None
+    m = ca[0]
+    fld = m.get("f")
+    if fld:
+        return (ev["var"], strip_tmpl(fld), m.get("b") or "")
+    if m.get("v"):
+        return (ev["var"], "var:" + m["v"], "")
+    return (ev["var"], "expr:" + (m.get("t") or ""), "")
+
+
+def locksets(func, entry=None, initial=frozenset()):
+    """Forward dataflow of held RAII guards.  Returns {(block, idx): [frozenset((var, mutex, base)), ...]} giving, for every
+    event, the lock set of every explored state *before* the event executes."""
+    at = {}
+
+    def step(st, ev):
+        at.setdefault((ev.block, ev.idx), set()).add(st)
+        k = ev["k"]
+        if k == "decl":
+            g = guard_of_decl(ev)
+            if g:
+                return frozenset(set(st) | {g})
+        elif k == "dtor":
+            v = ev.get("var")
+            if any(x[0] == v for x in st):
+                return frozenset(x for x in st if x[0] != v)
+        elif k == "call":
+            rv = ev.get("recv") or {}
+            name = (ev.get("callee") or "").rsplit("::", 1)[-1]
+            if name == "unlock" and rv.get("v") and any(x[0] == rv["v"] for x in st):
+                return frozenset(x for x in st if x[0] != rv["v"])
+        return st
+    for ent in ([entry] if entry is not None else cfg.region_entries(func)):
+        cfg.run_automaton(func, initial, step, start=ent)
+    return at
+
+
+def holds(lockstates, mutex_field, base):
+    """True when every explored state holds a guard on <base>-><mutex_field>."""
+    if not lockstates:
+        return False
+    for st in lockstates:
+        if not any(m == mutex_field and b == base for (_v, m, b) in st):
+            return False
+    return True
